@@ -288,6 +288,16 @@ def run(R):
                             stats["matrix_runs"] = stats.get("matrix_runs", 0) + 1
                             run_cmd(sbm, args, envn, f"{' '.join(base)} ({'match' if pat == s else 'no match'}{', dry run' if dry else ''}{', quiet' if q else ''})",
                                     plan_required=envn != "Plan")
+        # a workspace configuration that chooses another default preview: --output json still means one document and nothing else
+        for pf in ("table", "diff", "matches", "summary", "none", "bogus"):
+            with cli.Sandbox(tree) as sbc:
+                (sbc.root / ".renamify").mkdir(exist_ok=True)
+                (sbc.root / ".renamify" / "config.toml").write_text(f"[defaults]\npreview_format = \"{pf}\"\n")
+                stats["config_preview_runs"] = stats.get("config_preview_runs", 0) + 1
+                run_cmd(sbc, ["plan", s, t, "--dry-run", "--output", "json"], "PlanResult.json", f"plan --dry-run (config preview_format={pf})", plan_required=True)
+                run_cmd(sbc, ["search", s, "--output", "json"], "PlanResult.json", f"search (config preview_format={pf})", plan_required=True)
+                run_cmd(sbc, ["rename", s, t, "--dry-run", "--output", "json"], "RenameResult.json", f"rename --dry-run (config preview_format={pf})", plan_required=True)
+                run_cmd(sbc, ["rename", s, t, "--output", "json"], "RenameResult.json", f"rename (config preview_format={pf})", plan_required=True)
         # damaged workspace state (a crash or a full disk truncated a file under .renamify, a merge left conflict markers, a hand edit):
         # whatever the command then does - recover with a warning or fail - standard output stays one document or empty
         damages = [("truncated", lambda b: b[:40]), ("empty", lambda b: b""), ("garbage", lambda b: b"\x00\xff not json"),
